@@ -23,7 +23,8 @@ functions = [
          (r'DecodeVarint\(&num_faces, buffer\(\)\)', 'DecodeVarint_u32(&num_faces, self->buffer_)', 1), (r'DecodeVarint\(&num_points, buffer\(\)\)', 'DecodeVarint_u32(&num_points, self->buffer_)', 1),
          (r'buffer\(\)->remaining_size\(\)', 'DecoderBuffer_remaining_size(self->buffer_)', 1),
          (r'buffer\(\)->Decode\(&connectivity_method\)', 'DecoderBuffer_Decode_u8(self->buffer_, &connectivity_method)', 1),
-         (r'!DecodeAndDecompressIndices\(', '!MSD_DecodeAndDecompressIndices(self, ', 1),
+         (r'!DecodeAndDecompressIndices\(num_faces\)', '!MSD_DecodeAndDecompressIndices(self, num_faces, num_points)', 0),   # signature before fix 4d33960 (no point count)
+         (r'!DecodeAndDecompressIndices\(', '!MSD_DecodeAndDecompressIndices(self, ', 0),
          (r'uint8_t val;\s*if \(!buffer\(\)->Decode\(&val\)\)', 'uint8_t val;\n          if (!DecoderBuffer_Decode_u8(self->buffer_, &val))', 1),
          (r'uint16_t val;\s*if \(!buffer\(\)->Decode\(&val\)\)', 'uint16_t val;\n          if (!DecoderBuffer_Decode_u16(self->buffer_, &val))', 1),
          (r'uint32_t val;\s*if \(!DecodeVarint\(&val, buffer\(\)\)\)', 'uint32_t val;\n          if (!DecodeVarint_u32(&val, self->buffer_))', 1),
@@ -31,7 +32,7 @@ functions = [
          (r'point_cloud\(\)->set_num_points\(num_points\)', 'PointCloud_set_num_points(self, num_points)', 1)],
      'loops': {0: RAWLOOP, 1: INNER, 2: RAWLOOP, 3: INNER, 4: RAWLOOP, 5: INNER, 6: RAWLOOP, 7: INNER}},
     {'name': 'MSD_DecodeAndDecompressIndices', 'file': F,
-     'anchor': r'bool MeshSequentialDecoder::DecodeAndDecompressIndices\(uint32_t num_faces,\s*uint32_t num_points\)\s*\{',
+     'anchor': r'bool MeshSequentialDecoder::DecodeAndDecompressIndices\(uint32_t num_faces(?:,\s*uint32_t num_points)?\)\s*\{',   # either signature: the contract is the same
      'sig': 'bool MSD_DecodeAndDecompressIndices(struct MSD *self, uint32_t num_faces, uint32_t num_points)',
      'subst': face_subst(1) + [
          (r'std::vector<uint32_t> indices_buffer\(num_faces \* 3\);', 'uint32_t *indices_buffer = alloc_u32_array(self, num_faces * 3);', 1),
